@@ -130,8 +130,12 @@ pub fn call(name: &str, a: &Args, i: &[u8]) -> Option<Out> {
             c!(i, move |i| parse_tls_record_with_header(i, &h), |v: &Vec<TlsMessage>| pj::msgs(v))
         }
         "two_step" => c!(i, |i| {
+            // position reached = where decoding of the payload stopped inside the input (TlsRecord!TwoStep): the payload's
+            // remainder is a sub-slice of the input, not a suffix of it, so it is re-expressed as the input's tail from there
             let (_, r) = parse_tls_raw_record(i)?;
-            parse_tls_record_with_header(r.data, &r.hdr)
+            let (rem2, msgs) = parse_tls_record_with_header(r.data, &r.hdr)?;
+            let pos = rem2.as_ptr() as usize - i.as_ptr() as usize;
+            Ok((&i[pos..], msgs))
         }, |v: &Vec<TlsMessage>| pj::msgs(v)),
         // ---- messages
         "parse_tls_message_changecipherspec" => c!(i, parse_tls_message_changecipherspec, pj::msg),
